@@ -177,7 +177,7 @@ def _impl(args):
             d = wnenv.workdir()
             f = d / 'v.xml'
             f.write_text(docs.to_xml(docs.resource([lx], v)), encoding='utf-8')
-            p = subprocess.run([sys.executable, '-m', 'wn', '--dir', str(d / 'data'), 'validate', str(f)], cwd='/repo',
+            p = subprocess.run([sys.executable, '-m', 'wn', '--dir', str(d / 'data'), 'validate', str(f)], cwd=wnenv.REPO,
                                stdout=subprocess.PIPE, stderr=subprocess.PIPE, text=True, timeout=120)
             res['cli'] = {'rc': p.returncode, 'out': p.stdout[-300:], 'err': p.stderr[-300:]}
             shutil.rmtree(d, ignore_errors=True)
